@@ -19,6 +19,7 @@ Decided:
  T7 device-advertised window lengths bound every configuration access (C13.G1/G5 tables).
  T9 net receive claims the slot of the completed id before consuming the completion (C16.S4 custody rules).
  T10 every return of the owning queue's poll has re-posted the popped buffer (C19.Q1).
+ T11 MMIO config window ends inside the region (C13.G7).  T12 blocking helper pops its own token (C03.E8).
  T8 a completion poll the device makes fail frees nothing that is still posted (C04.P8).
 Not decided: absence of panics (the property allows clean panics); arbitrary callers of the unsafe queue API.
 """
@@ -119,6 +120,10 @@ def run(F, R):
     # recycles a free descriptor and unshares its buffer a second time
     from .C19 import poll_rule
     poll_rule(F, R, 'T10')
+    # T12: the token check of pop_used is what ties a device-reported id to the chain a blocking call submitted: the helper passes
+    # the token of its own add, never the id the device wrote (C03.E8)
+    from .C03 import e8_helper_token
+    guard(R, 'T12', 'helper-token', lambda: e8_helper_token(F, R, M, _c5.classify_api(_c5.queue_api(F, M)), rule='T12'))
     # T11: no access past the MMIO region: the configuration window built from a (pointer, size) region description ends inside it (C13.G7)
     from .C13 import g7_region_window
     guard(R, 'T11', 'region-window', lambda: g7_region_window(F, R, rule='T11'))
